@@ -206,14 +206,12 @@ theorem minimal_encodeNum (n : Int) : Consensus.minimal (encodeNum n) = true := 
     unfold Consensus.minimal
     by_cases h128 : 128 ≤ last.toNat
     · simp only [h128, if_true, List.reverse_append, List.reverse_cons, List.reverse_nil,
-        List.nil_append, List.singleton_append, List.cons_append]
+        List.nil_append, List.singleton_append]
       by_cases hneg : n < 0
       · simp only [hneg, if_true]
-        have : (0x80 : UInt8).toNat % 128 = 0 := rfl
-        simp [this, h128]
+        simp
       · simp only [hneg, if_false]
-        have : (0 : UInt8).toNat % 128 = 0 := rfl
-        simp [this, h128]
+        simp
     · simp only [h128, if_false]
       by_cases hneg : n < 0
       · simp only [hneg, if_true, List.reverse_append, List.reverse_cons, List.reverse_nil,
@@ -793,7 +791,7 @@ theorem conf_cltv (env : Env) (s alt : Stack) (hlt : env.locktime ≤ 4294967295
       · simp only [hneg, if_false]
         generalize n.toNat = m
         simp only [locktimeComparable, Consensus.checkLockTime, Consensus.LOCKTIME_THRESHOLD,
-          Consensus.SEQUENCE_FINAL, ctxOf, Gen.maxSequence, Gen.maxLocktime, Gen.blockLimit]
+          Consensus.SEQUENCE_FINAL, ctxOf, Gen.opMaxSequence, Gen.opMaxLocktime, Gen.blockLimit]
         by_cases h1 : env.sequence = 4294967295 <;> by_cases h2 : m > 4294967295 <;>
           by_cases h3 : env.locktime < 500000000 <;> by_cases h4 : m < 500000000 <;>
           by_cases h5 : env.locktime < m <;>
@@ -855,7 +853,7 @@ theorem conf_csv (env : Env) (s alt : Stack)
         simp only [seqIsRelative, seqIsRelativeTime, seqIsRelativeBlock, seqComparable,
           Consensus.checkSequence, Consensus.SEQUENCE_LOCKTIME_DISABLE_FLAG,
           Consensus.SEQUENCE_LOCKTIME_TYPE_FLAG, Consensus.SEQUENCE_LOCKTIME_MASK, ctxOf,
-          Gen.seqDisableFlag, Gen.seqTimeFlag, Gen.seqMask, Gen.csvMinVersion, Gen.maxSequence,
+          Gen.seqDisableFlag, Gen.seqTimeFlag, Gen.seqMask, Gen.csvMinVersion, Gen.opMaxSequence,
           Nat.one_shiftLeft]
         have e31 : (2 : Nat) ^ 31 = 2147483648 := by decide
         have e22 : (2 : Nat) ^ 22 = 4194304 := by decide
@@ -902,7 +900,7 @@ theorem conf_csv_wide (env : Env) (top : Bytes) (s alt : Stack)
     generalize n.toNat = m at *
     clear h e hn
     simp only [seqIsRelative, Consensus.checkSequence, Consensus.SEQUENCE_LOCKTIME_DISABLE_FLAG, ctxOf,
-      Gen.seqDisableFlag, Gen.csvMinVersion, Gen.maxSequence, Nat.one_shiftLeft] at hve ⊢
+      Gen.seqDisableFlag, Gen.csvMinVersion, Gen.opMaxSequence, Nat.one_shiftLeft] at hve ⊢
     have e31 : (2 : Nat) ^ 31 = 2147483648 := by decide
     rw [e31]
     have hs31 := and_bit env.sequence 31
@@ -1081,8 +1079,8 @@ theorem p2shRule_plain (env : Env) (st : St) (b : Bytes) (h : st.cmds.all slCmd 
     simp [this]
   · rfl
 
-theorem witnessRules_plain (env : Env) (st : St) (b : Bytes) (s : Stack) (hs : st.stack = b :: s)
-    (h : plainPush b = true) : witnessRules env st = .ok st := by
+theorem witnessRules_plain (cfg : Cfg) (env : Env) (st : St) (b : Bytes) (s : Stack) (hs : st.stack = b :: s)
+    (h : plainPush b = true) : witnessRules cfg env st = .ok st := by
   unfold witnessRules
   simp only [plainPush, Bool.and_eq_true, bne_iff_ne, ne_eq] at h
   rw [hs]
@@ -1093,6 +1091,15 @@ theorem witnessRules_plain (env : Env) (st : St) (b : Bytes) (s : Stack) (hs : s
     simp [h.1, h.2]
   · rfl
 
+
+/-- after a plain push neither the "nothing remains" test nor the witness-program rules change the state -/
+theorem afterPush_plain (cfg : Cfg) (env : Env) (st : St) (b : Bytes) (s : Stack) (hs : st.stack = b :: s)
+    (h : plainPush b = true) :
+    (if (cfg.triggersOnlyAtEnd && !st.cmds.isEmpty) = true then (Except.ok st : Step)
+      else witnessRules cfg env st) = .ok st := by
+  split
+  · rfl
+  · exact witnessRules_plain cfg env st b s hs h
 
 theorem run_nil (cfg : Cfg) (env : Env) (fuel : Nat) (st : St) (h : st.cmds = []) :
     run cfg env fuel st = finalTest cfg st.stack := by
@@ -1150,7 +1157,7 @@ theorem run_straightline (env : Env) (hlt : env.locktime ≤ 4294967295) :
           = .ok ⟨rest, b :: stack, alt, none, false⟩ := by
         simp only [step]
         rw [p2shRule_plain env _ b hrest]
-        exact witnessRules_plain env _ b stack rfl hp
+        exact afterPush_plain _ env _ b stack rfl hp
       have h2 : Consensus.runFrom (ctxOf env) ⟨stack, alt, []⟩ (.push b :: rest)
           = Consensus.runFrom (ctxOf env) ⟨b :: stack, alt, []⟩ rest := by
         simp [Consensus.runFrom, Consensus.step, Consensus.fExec]
